@@ -1,0 +1,100 @@
+//go:build verif
+
+/*
+Copyright 2026 The Volcano Authors.
+
+Licensed under the Apache License, Version 2.0 (the "License");
+you may not use this file except in compliance with the License.
+You may obtain a copy of the License at
+
+    http://www.apache.org/licenses/LICENSE-2.0
+
+Unless required by applicable law or agreed to in writing, software
+distributed under the License is distributed on an "AS IS" BASIS,
+WITHOUT WARRANTIES OR CONDITIONS OF ANY KIND, either express or implied.
+See the License for the specific language governing permissions and
+limitations under the License.
+*/
+
+package job
+
+import (
+	"sync"
+	"time"
+
+	"k8s.io/apimachinery/pkg/runtime"
+	"k8s.io/client-go/util/workqueue"
+
+	"volcano.sh/volcano/pkg/controllers/apis"
+)
+
+// The requeue budget of the worker queue (processNextReq -> handleJobError):
+// a request whose Execute fails is re-queued rate limited until it has been
+// re-queued maxRequeueNum times, then the controller gives up on it.  These
+// hooks let a harness drive that path through the real processNextReq: the
+// rate limiter (NumRequeues / Forget) persists from call to call, the budget
+// can be set per case, and the events the controller records are reported.
+
+var verifLimiters sync.Map // *VerifJobController -> workqueue.TypedRateLimiter[any]
+
+func (v *VerifJobController) verifLimiter() workqueue.TypedRateLimiter[any] {
+	if l, ok := verifLimiters.Load(v); ok {
+		return l.(workqueue.TypedRateLimiter[any])
+	}
+	l := workqueue.NewTypedItemExponentialFailureRateLimiter[any](time.Millisecond, time.Second)
+	verifLimiters.Store(v, l)
+	return l
+}
+
+// VerifSetMaxRequeueNum sets --max-requeue-num (-1: re-queue for ever).
+func (v *VerifJobController) VerifSetMaxRequeueNum(n int) { v.cc.maxRequeueNum = n }
+
+// VerifResetRequeues forgets every request's requeue count (a new worker queue).
+func (v *VerifJobController) VerifResetRequeues() { verifLimiters.Delete(v) }
+
+// VerifNumRequeues is the queue's NumRequeues for the request.
+func (v *VerifJobController) VerifNumRequeues(req apis.Request) int {
+	return v.verifLimiter().NumRequeues(req)
+}
+
+// VerifProcessReqCounted delivers one request through the real processNextReq
+// on a worker queue whose rate limiter is the persistent one, and reports
+// whether the request was re-queued by this call.
+func (v *VerifJobController) VerifProcessReqCounted(req apis.Request) (requeued bool) {
+	lim := v.verifLimiter()
+	before := lim.NumRequeues(req)
+	q := workqueue.NewTypedRateLimitingQueue(lim)
+	old := v.cc.queueList[0]
+	v.cc.queueList[0] = q
+	defer func() {
+		v.cc.queueList[0] = old
+		q.ShutDown()
+	}()
+	q.Add(req)
+	v.cc.processNextReq(0)
+	return lim.NumRequeues(req) > before
+}
+
+// verifRecorder hands every recorded event to a callback.
+type verifRecorder struct {
+	fn func(eventtype, reason, message string)
+}
+
+func (r *verifRecorder) Event(_ runtime.Object, eventtype, reason, message string) {
+	r.fn(eventtype, reason, message)
+}
+func (r *verifRecorder) Eventf(_ runtime.Object, eventtype, reason, messageFmt string, _ ...interface{}) {
+	r.fn(eventtype, reason, messageFmt)
+}
+func (r *verifRecorder) AnnotatedEventf(_ runtime.Object, _ map[string]string, eventtype, reason, messageFmt string, _ ...interface{}) {
+	r.fn(eventtype, reason, messageFmt)
+}
+
+// VerifOnEvent replaces the event recorder by one that calls fn, synchronously,
+// for every event the controller records (fn == nil: events are dropped again).
+func (v *VerifJobController) VerifOnEvent(fn func(eventtype, reason, message string)) {
+	if fn == nil {
+		fn = func(string, string, string) {}
+	}
+	v.cc.recorder = &verifRecorder{fn: fn}
+}
